@@ -1,0 +1,140 @@
+//go:build verif
+
+package datamatrix
+
+import (
+	"reflect"
+
+	"github.com/boombuler/barcode"
+)
+
+// This file is add-only and compiled only with -tags verif.  It exposes
+// unexported tables and functions of the package to the /verif translator and
+// harness; it does not change any behaviour.
+
+// VerifCodeSizes returns the rows of codeSizes:
+// Rows, Columns, RegionCountHorizontal, RegionCountVertical, ECCCount, BlockCount.
+func VerifCodeSizes() [][6]int {
+	res := make([][6]int, len(codeSizes))
+	for i, s := range codeSizes {
+		res[i] = [6]int{s.Rows, s.Columns, s.RegionCountHorizontal, s.RegionCountVertical, s.ECCCount, s.BlockCount}
+	}
+	return res
+}
+
+// VerifSizeDerived returns the region arithmetic of codeSizes[idx]: RegionRows,
+// RegionColumns, MatrixRows, MatrixColumns, DataCodewords,
+// ErrorCorrectionCodewordsPerBlock and DataCodewordsForBlock(b) for every block.
+func VerifSizeDerived(idx int) (derived [6]int, perBlock []int) {
+	s := codeSizes[idx]
+	derived = [6]int{s.RegionRows(), s.RegionColumns(), s.MatrixRows(), s.MatrixColumns(),
+		s.DataCodewords(), s.ErrorCorrectionCodewordsPerBlock()}
+	for b := 0; b < s.BlockCount; b++ {
+		perBlock = append(perBlock, s.DataCodewordsForBlock(b))
+	}
+	return
+}
+
+// VerifEncodeText is encodeText.
+func VerifEncodeText(content string) []byte { return encodeText(content) }
+
+// VerifAddPadding is addPadding (on a copy of data).
+func VerifAddPadding(data []byte, toCount int) []byte {
+	return addPadding(append([]byte(nil), data...), toCount)
+}
+
+// VerifCalcECC is ec.calcECC(data, codeSizes[idx]) (on a copy of data).
+func VerifCalcECC(data []byte, idx int) []byte {
+	return ec.calcECC(append([]byte(nil), data...), codeSizes[idx])
+}
+
+// VerifRender is render(data, codeSizes[idx], ColorScheme16) with empty content.
+func VerifRender(data []byte, idx int) barcode.Barcode {
+	return render(append([]byte(nil), data...), codeSizes[idx], barcode.ColorScheme16)
+}
+
+// VerifPlacement probes codeLayout.SetValues for codeSizes[idx]: it returns for
+// every cell pos = col + row*MatrixColumns() of the mapping matrix
+//
+//	idx*8 + bitNum  when SetValues stores bit bitNum (0 = most significant) of data[idx] there,
+//	-1              when the cell is never written (occupy bit clear),
+//	-2              when the cell is written with a constant 1,
+//	-3              when the cell is written with a constant 0,
+//
+// found by running SetValues on MatrixRows*MatrixColumns/8 codewords with
+// distinguishing bit patterns (one pass per bit of the code idx*8+bitNum+1).
+func VerifPlacement(idx int) []int {
+	s := codeSizes[idx]
+	cells := s.MatrixRows() * s.MatrixColumns()
+	n := cells / 8
+	passes := 1
+	for (1 << uint(passes)) <= n*8+1 {
+		passes++
+	}
+	code := make([]int, cells)
+	var occ []bool
+	ones := make([]bool, cells)
+	zeros := make([]bool, cells)
+	for i := range ones {
+		ones[i] = true
+		zeros[i] = true
+	}
+	for p := 0; p < passes; p++ {
+		data := make([]byte, n)
+		for i := 0; i < n; i++ {
+			for b := 0; b < 8; b++ {
+				if ((i*8+b+1)>>uint(p))&1 == 1 {
+					data[i] |= 1 << uint(7-b)
+				}
+			}
+		}
+		l := newCodeLayout(s, barcode.ColorScheme16)
+		l.SetValues(data)
+		if occ == nil {
+			occ = make([]bool, cells)
+			for pos := 0; pos < cells; pos++ {
+				occ[pos] = l.occupy.GetBit(pos)
+			}
+		}
+		for pos := 0; pos < cells; pos++ {
+			if l.matrix.GetBit(pos) {
+				code[pos] |= 1 << uint(p)
+				zeros[pos] = false
+			} else {
+				ones[pos] = false
+			}
+		}
+	}
+	res := make([]int, cells)
+	for pos := 0; pos < cells; pos++ {
+		switch {
+		case !occ[pos]:
+			res[pos] = -1
+		case ones[pos]:
+			res[pos] = -2
+		case zeros[pos]:
+			res[pos] = -3
+		default:
+			res[pos] = code[pos] - 1
+		}
+	}
+	return res
+}
+
+// VerifGF returns the parameters and tables of the Galois field behind the
+// package's Reed-Solomon encoder (ec.rs), read through reflection because the
+// encoder's field is unexported in package utils.
+func VerifGF() (size, base int, alog, log []int) {
+	gf := reflect.ValueOf(ec.rs).Elem().FieldByName("gf").Elem()
+	size = int(gf.FieldByName("Size").Int())
+	base = int(gf.FieldByName("Base").Int())
+	a := gf.FieldByName("ALogTbl")
+	for i := 0; i < a.Len(); i++ {
+		alog = append(alog, int(a.Index(i).Int()))
+	}
+	l := gf.FieldByName("LogTbl")
+	for i := 0; i < l.Len(); i++ {
+		log = append(log, int(l.Index(i).Int()))
+	}
+	return
+}
